@@ -4,6 +4,7 @@ package main
 // re-label its obligations.
 
 import (
+	"fmt"
 	"go/types"
 	"strings"
 
@@ -112,4 +113,27 @@ func installedFns(c *Ctx) []installedFn {
 		}
 	}
 	return out
+}
+
+// installedRecognisers checks, for every constructor that installs a library parser, the
+// recogniser installed next to it (in the parser's framing; CRC-aware for RTU).
+func installedRecognisers(c *Ctx, r *Report, rule string, crc *ssa.Function, skip map[string]bool) {
+	done := map[string]bool{}
+	for k := range skip {
+		done[k] = true
+	}
+	for _, in := range installedFns(c) {
+		if in.parse == nil {
+			continue // user-supplied functions: outside the property
+		}
+		if in.asErr == nil {
+			r.instance(rule, 1)
+			r.fail(rule, fnID(in.ctor), "this constructor installs the library parser "+in.parse.Name()+" but can leave a recogniser of unknown origin (the default of the other framing, or a user function) next to it", in.pos, "", "recogniser-not-static")
+			continue
+		}
+		if k := fmt.Sprintf("%s/%v", in.asErr.String(), in.rtu); !done[k] {
+			done[k] = true
+			c02RecogniserCRC(c, r, rule, in.asErr, crcIf(crc, in.rtu), !in.rtu, false)
+		}
+	}
 }
